@@ -545,6 +545,36 @@ static void blocks()
     R.part("sum/sum1/sum2/mean/dot and strided forms, copy/swap/fill/zero, push_fore/back(_), roll_fore/back(_): every length 0..6, strides 1..3 (pairs of strides for dot_ and copy_), cache/shift lengths 0..7, small-integer contents (exact), guard cells on both sides; means of all vectors of length 1..3 over {+-MAX, +-MAX/2, 1}", n, nt);
 }
 
+// ---------------------------------------------------------------- strided swap on one array, fill with signed zeros
+// In-place transpose of an n x n matrix: the tail of row i (stride 1) is swapped with the tail of column i (stride n); both start at the
+// diagonal element, so the two arguments are the same pointer with different strides.  The elements touched are disjoint apart from the
+// shared first one, so the result does not depend on the order of the exchanges.
+static void alias_swap_fill()
+{
+    if (R.shard.idx != 0) { return; }
+    uint64_t n = 0;
+    for (size_t N = 1; N <= 6; ++N)
+    {
+        std::vector<a_real> M(N * N + 2, (a_real)-4242.5), T0(N * N);
+        for (size_t i = 0; i < N; ++i) { for (size_t j = 0; j < N; ++j) { M[1 + i * N + j] = (a_real)(10 * i + j + 1); T0[j * N + i] = (a_real)(10 * i + j + 1); } }
+        for (size_t i = 0; i < N; ++i) { a_real_swap_(N - i, &M[1 + i * N + i], 1, &M[1 + i * N + i], N); }
+        ++n;
+        bool ok = M[0] == (a_real)-4242.5 && M[N * N + 1] == (a_real)-4242.5;
+        for (size_t k = 0; k < N * N; ++k) { ok = ok && M[1 + k] == T0[k]; }
+        if (!ok) { R.viol("real|swap_|shared-start", "a_real_swap_ of the tail of a row (stride 1) with the tail of the column starting at the same diagonal element (stride n) does not transpose the " + std::to_string(N) + "x" + std::to_string(N) + " matrix", "{\"n\":" + std::to_string(N) + "}"); }
+    }
+    for (a_real v : {(a_real)-0.0, (a_real)0.0, (a_real)-2.5})
+    {
+        a_real d[6] = {7, 7, 7, 7, 7, 7};
+        a_real_fill(4, d + 1, v);
+        ++n;
+        bool ok = d[0] == 7 && d[5] == 7;
+        for (int i = 1; i <= 4; ++i) { ok = ok && memcmp(&d[i], &v, sizeof(a_real) == 16 ? 10 : sizeof(a_real)) == 0; }
+        if (!ok) { R.viol("real|fill|bits", std::string("a_real_fill with ") + (std::signbit((double)v) && v == 0 ? "-0" : num((double)v)) + " did not store that value bit for bit", "{\"value\":" + num((double)v) + "}"); }
+    }
+    R.part("strided swap of two ranges of one array that share their first element (in-place transpose, n = 1..6); fill with -0, +0 and an ordinary value compared bit for bit", n, n);
+}
+
 // ---------------------------------------------------------------- the same array reduced again after an in-place edit
 // straight-line code through an opaque pointer at -O2: every call reads the elements as they are at that moment (a declaration that
 // promises the compiler independence from memory would let it reuse the earlier result)
@@ -600,6 +630,7 @@ int main(int argc, char **argv)
         univariate(thorough);
         multivariate();
         blocks();
+        alias_swap_fill();
         reread();
         static const char *wn[16] = {"asinh_fallback", "asinh_bound", "acosh_fallback", "acosh_bound", "atanh_fallback", "atanh_bound", "expm1_fallback", "expm1_bound", "log1p_fallback", "log1p_bound", "atan2_fallback", "atan2_bound", "norm2", "norm3", "norm", ""};
         std::string w = "{";
